@@ -1,17 +1,20 @@
 (* Correspondence for C20: what the harness observed on *ociregistry.Funcs versus the
-   model (Model/Funcs.v) and versus the property's specification. *)
-From Coq Require Import String.
-From OCI Require Export Base.Outcome Model.Funcs.
-From OCI Require Import Proofs.Funcs.
+   model (Model/Funcs.v, Model/FuncsRun.v) and versus the property's specification.
 
-Inductive obs :=
-  | O (o : outcome)
-  | OOther (what : bytes).     (* e.g. results not returned faithfully, unexpected error *)
+   A case is a HISTORY: one table value, a list of calls made on it one after the other (each
+   with its own context value and arguments, each followed by the traversals the caller made of
+   the returned iterator), and what the caller saw of every call. *)
+From Coq Require Import String.
+From OCI Require Export Base.Outcome Model.Funcs Model.FuncsRun.
+From OCI Require Import Proofs.Funcs Proofs.FuncsRun.
 
 Record case := {
-  c_nil : bool; c_ctor : bool; c_set : list method;
-  c_m : method; c_args : list bytes;
-  c_obs : obs
+  c_nil : bool; c_ctor : bool;
+  c_ctor_kind : N;      (* which kind of value the constructor returns (the harness's numbering);
+                           neither the model nor the specification looks at it *)
+  c_set : list method;
+  c_steps : list step;
+  c_obs : list sobs
 }.
 
 Definition mem_method (m : method) (l : list method) : bool := existsb (method_eqb m) l.
@@ -19,66 +22,128 @@ Definition mem_method (m : method) (l : list method) : bool := existsb (method_e
 Definition table_of (c : case) : table :=
   {| t_nil := c_nil c; t_ctor := c_ctor c; t_set := fun m => mem_method m (c_set c) |}.
 
-Definition outcome_eqb (a b : outcome) : bool :=
+Definition errv_eqb (a b : errv) : bool :=
   match a, b with
-  | CPanic, CPanic => true
-  | CDelegated f x, CDelegated g y => method_eqb f g && list_eqb beqb x y
-  | CCtorError n r k, CCtorError n' r' k' => beqb n n' && beqb r r' && N.eqb k k'
-  | CUnsupported n k, CUnsupported n' k' => beqb n n' && N.eqb k k'
+  | ECtorErr c n r, ECtorErr c' n' r' => beqb c c' && beqb n n' && beqb r r'
+  | EUnsup n, EUnsup n' => beqb n n'
   | _, _ => false
   end.
 
-Lemma outcome_eqb_eq a b : outcome_eqb a b = true -> a = b.
+Lemma errv_eqb_eq a b : errv_eqb a b = true -> a = b.
 Proof.
-  destruct a, b; cbn; try discriminate; auto; intros H;
-    repeat (apply andb_true_iff in H as [H ?]).
-  - apply method_eqb_eq in H. apply (list_eqb_eq beqb beqb_eq) in H0. now subst.
-  - apply beqb_eq in H. apply beqb_eq in H1. apply N.eqb_eq in H0. now subst.
-  - apply beqb_eq in H. apply N.eqb_eq in H0. now subst.
+  destruct a, b; cbn; try discriminate; intros H;
+    repeat (apply andb_true_iff in H as [H ?]);
+    repeat match goal with E : beqb _ _ = true |- _ => apply beqb_eq in E end; now subst.
+Qed.
+
+Lemma errv_eqb_refl a : errv_eqb a a = true.
+Proof. destruct a; cbn; now rewrite ?beqb_refl. Qed.
+
+(* [YOther] / [SOther] are never what the model predicts: never equal *)
+Definition yobs_eqb (a b : yobs) : bool :=
+  match a, b with YErr e, YErr e' => errv_eqb e e' | _, _ => false end.
+
+Lemma yobs_eqb_eq a b : yobs_eqb a b = true -> a = b.
+Proof. destruct a, b; cbn; try discriminate. intros H. now apply errv_eqb_eq in H as ->. Qed.
+
+Definition sobs_eqb (a b : sobs) : bool :=
+  match a, b with
+  | SPanic, SPanic => true
+  | SDelegated f c x, SDelegated g d y => method_eqb f g && beqb c d && list_eqb beqb x y
+  | SError e, SError e' => errv_eqb e e'
+  | SSeq t, SSeq t' => list_eqb (list_eqb yobs_eqb) t t'
+  | _, _ => false
+  end.
+
+Lemma list_eqb_sound {A} (eqb : A -> A -> bool) :
+  (forall a b, eqb a b = true -> a = b) -> forall l l', list_eqb eqb l l' = true -> l = l'.
+Proof.
+  intros H. induction l as [|a l IH]; destruct l' as [|b l']; cbn; try discriminate; auto.
+  intros E. apply andb_true_iff in E as [E1 E2]. apply H in E1. apply IH in E2. now subst.
+Qed.
+
+Lemma sobs_eqb_eq a b : sobs_eqb a b = true -> a = b.
+Proof.
+  destruct a, b; cbn; try discriminate; auto; intros H.
+  - repeat (apply andb_true_iff in H as [H ?]).
+    apply method_eqb_eq in H. apply beqb_eq in H1. apply (list_eqb_sound beqb) in H0.
+    + now subst.
+    + intros; now apply beqb_eq.
+  - now apply errv_eqb_eq in H as ->.
+  - apply (list_eqb_sound (list_eqb yobs_eqb)) in H; [now subst|].
+    apply list_eqb_sound, yobs_eqb_eq.
 Qed.
 
 Definition model_agrees (c : case) : bool :=
-  match c_obs c with
-  | O o => outcome_eqb o (call (table_of c) (c_m c) (c_args c))
-  | OOther _ => false
-  end.
+  list_eqb sobs_eqb (c_obs c) (run (table_of c) (c_steps c)).
 
-(* The specification, read directly off the property (no reference to the model's tables). *)
-Definition obs_ok (c : case) : bool :=
-  let m := c_m c in
+(* ---- the specification, read directly off the property (no reference to the model's
+   per-method tables, to [invoke] or to [run]) ---- *)
+
+(* the error an unset method must report: the constructor's, made from this call's context,
+   the method's name and its repository argument; or else the unsupported-operation error *)
+Definition want_err (c : case) (st : step) : errv :=
+  if negb (c_nil c) && c_ctor c
+  then ECtorErr (s_ctx st) (method_name (s_m st)) (repo_arg (s_m st) (s_args st))
+  else EUnsup (method_name (s_m st)).
+
+(* a traversal of an unset iterator method's result: exactly one yield, carrying that error *)
+Definition trav_ok (e : errv) (tr : list yobs) : bool :=
+  match tr with [YErr e'] => errv_eqb e' e | _ => false end.
+
+Definition step_ok (c : case) (st : step) (o : sobs) : bool :=
+  let m := s_m st in
   let isset := negb (c_nil c) && mem_method m (c_set c) in
-  let y := if is_iter m then 1 else 0 in
-  match c_obs c with
-  | O CPanic => false
-  | O (CDelegated f args) => isset && method_eqb f m && list_eqb beqb args (c_args c)
-  | O (CCtorError n r k) =>
-      negb isset && negb (c_nil c) && c_ctor c && beqb n (method_name m)
-      && beqb r (repo_arg m (c_args c)) && N.eqb k y
-  | O (CUnsupported n k) =>
-      negb isset && (c_nil c || negb (c_ctor c)) && beqb n (method_name m) && N.eqb k y
-  | OOther _ => false
+  match o with
+  | SPanic => false
+  | SDelegated f ctx args =>
+      isset && method_eqb f m && beqb ctx (s_ctx st) && list_eqb beqb args (s_args st)
+  | SError e => negb isset && negb (is_iter m) && errv_eqb e (want_err c st)
+  | SSeq travs =>
+      negb isset && is_iter m && Nat.eqb (List.length travs) (List.length (s_trav st))
+      && forallb (trav_ok (want_err c st)) travs
+  | SOther _ => false
   end.
 
-(* a case is non-trivial when it can tell a guard on the wrong field from the right one:
-   some field other than the method's own is set, or the method's own field is unset while
-   others are set, or the table is nil *)
+Fixpoint all2 {A B} (f : A -> B -> bool) (la : list A) (lb : list B) : bool :=
+  match la, lb with
+  | [], [] => true
+  | a :: la, b :: lb => f a b && all2 f la lb
+  | _, _ => false
+  end.
+
+(* every call of the history, whatever came before it, is answered as the property says *)
+Definition obs_ok (c : case) : bool := all2 (step_ok c) (c_steps c) (c_obs c).
+
+(* a case is non-trivial when it can tell a guard on the wrong field from the right one for
+   some call of the history: the table is nil, or some field other than that call's own is set *)
 Definition nontrivial (c : case) : bool :=
-  c_nil c || existsb (fun f => negb (method_eqb f (c_m c))) (c_set c).
+  existsb (fun st => c_nil c || existsb (fun f => negb (method_eqb f (s_m st))) (c_set c)) (c_steps c).
+
+Lemma step_ok_run c st : step_ok c st (run_step (table_of c) st) = true.
+Proof.
+  pose proof (run_step_spec (table_of c) st) as H. unfold step_spec in H.
+  cbn [t_nil t_set t_ctor table_of] in H. unfold step_ok.
+  assert (Eerr : unset_err (table_of c) (s_m st) (s_ctx st) (s_args st) = want_err c st) by reflexivity.
+  destruct H as [(Hn & Hs & ->) | (Hu & ->)].
+  - rewrite Hn, Hs. cbn.
+    assert (method_eqb (s_m st) (s_m st) = true) as -> by now apply method_eqb_eq.
+    rewrite beqb_refl. apply (list_eqb_eq beqb beqb_eq). reflexivity.
+  - assert (E : negb (c_nil c) && mem_method (s_m st) (c_set c) = false).
+    { destruct Hu as [-> | ->]; [reflexivity | apply andb_false_r]. }
+    cbv zeta. rewrite Eerr. destruct (is_iter (s_m st)).
+    + rewrite E. cbn [negb andb]. rewrite map_length, Nat.eqb_refl. cbn [andb].
+      induction (s_trav st) as [|k l IH]; cbn; [reflexivity|].
+      now rewrite errv_eqb_refl.
+    + rewrite E. cbn. apply errv_eqb_refl.
+Qed.
 
 Lemma corr_sound c : model_agrees c = true -> obs_ok c = true.
 Proof.
-  unfold model_agrees, obs_ok. destruct (c_obs c) as [o|w]; [|discriminate].
-  intros H. apply outcome_eqb_eq in H. subst o.
-  set (t := table_of c). set (m := c_m c). set (args := c_args c).
-  destruct (negb (c_nil c) && mem_method m (c_set c)) eqn:E.
-  - apply andb_true_iff in E as [E1 E2]. apply negb_true_iff in E1.
-    rewrite (call_delegates t m args E1 E2). cbn.
-    assert (method_eqb m m = true) as -> by now apply method_eqb_eq.
-    apply (list_eqb_eq beqb beqb_eq). reflexivity.
-  - rewrite (call_unset t m args).
-    2:{ apply andb_false_iff in E as [E|E]; [left; now apply negb_false_iff in E | now right]. }
-    cbn [t_nil t_ctor t table_of].
-    destruct (c_nil c), (c_ctor c); cbn; rewrite ?beqb_refl, ?N.eqb_refl; reflexivity.
+  unfold model_agrees, obs_ok. intros H.
+  apply (list_eqb_sound sobs_eqb sobs_eqb_eq) in H. rewrite H. clear H. unfold run.
+  induction (c_steps c) as [|st l IH]; cbn [all2 map]; [reflexivity|].
+  rewrite step_ok_run. exact IH.
 Qed.
 
 Definition mismatches (cs : list case) : list (N * bool) :=
